@@ -11,7 +11,7 @@ from fractions import Fraction
 
 from symx import core, stack, env, symnp, units
 from symx.core import z3, SN
-from symx.framework import new_result, VCSink, fill_explorer
+from symx.framework import new_result, VCSink, fill_explorer, add_witness
 
 PROPERTY = "C15"
 LEVEL = "model_checking"
@@ -178,6 +178,11 @@ def run_shape(shape, tier):
 
     def harness():
         inp = _mk_inputs(shape, st)
+        if nt % 2 == 0:
+            # astropy's Time refuses non-finite values, so Time input implies finite times
+            for i in range(nt):
+                if ("t", i) in inp["flags"]:
+                    core.assume(inp["flags"][("t", i)])
         d = RVData(inp["t_arr"] if nt % 2 else units.Time(inp["t_arr"]), inp["rv_q"], inp["rv_err_q"], t_ref=inp["t_ref"], clean=shape["clean"])
         return inp, d
 
@@ -202,6 +207,8 @@ def run_shape(shape, tier):
             kept = _kept_flags(shape, inp)
             desc = _describe(shape, inp)
             _check_object(sink, path, shape, inp, kept, d, "init", desc)
+            if ex.n_paths % 2 == 1:
+                add_witness(res, path, desc, site="RVData")
             # derived quantities
             _check_ivar_cov(sink, path, shape, inp, d, desc)
             # copy(): same observations, same pairing, same units, same reference epoch
@@ -436,6 +443,9 @@ def replay(cand):
             return {"reproduced": False, "detail": "constructor raised on all-non-finite input (allowed)"}
         return {"reproduced": True, "detail": "RVData(...) raised %s: %s" % (type(e).__name__, str(e)[:200])}
     bad = []
+    if not keep.any():
+        ok = len(d) == 0
+        return {"reproduced": not ok, "detail": "no finite observation: RVData holds %d rows" % len(d)}
 
     def rows(obj):
         tt = np.asarray(obj._t_bmjd, float)
